@@ -48,6 +48,8 @@ pub mod k {
     pub const TGKILL: u16 = 40;
     pub const SETRES: u16 = 41;
     pub const PANIC: u16 = 42;
+    pub const RAWSYS: u16 = 43; // syscall(number, ...) called directly: a[0] = number
+    pub const PIDFD_OPEN: u16 = 44;
     pub const MAX: usize = 48;
 
     pub fn name(k: u16) -> &'static str {
@@ -59,7 +61,7 @@ pub mod k {
             NANOSLEEP => "sleep", OPEN => "open", EXIT => "_exit", ALLOC => "alloc", REALLOC => "realloc", DEALLOC => "dealloc",
             EXECVP => "execvp", POSIX_SPAWN => "posix_spawn", VFORK => "vfork", KILLPG => "killpg", CLOSE_RANGE => "close_range",
             SETSID => "setsid", FCHDIR => "fchdir", SETGROUPS => "setgroups", SELECT => "select", TGKILL => "tgkill",
-            SETRES => "setres*id", PANIC => "panic", _ => "?",
+            SETRES => "setres*id", PANIC => "panic", RAWSYS => "syscall", PIDFD_OPEN => "pidfd_open", _ => "?",
         }
     }
 }
@@ -91,6 +93,8 @@ pub struct Shared {
     pub child_exec_attempts: AtomicUsize,
     pub child_panics: AtomicUsize,
     pub child_escapes: AtomicUsize,
+    /// system calls the library made through syscall() that the monitors do not model (a blind spot, counted)
+    pub unmodelled_raw_syscalls: AtomicUsize,
     pub plan_fired: [AtomicU32; 32],
     pub bt_n: AtomicUsize,
     pub bt: UnsafeCell<[[usize; BT_DEPTH]; BT_SLOTS]>,
@@ -127,7 +131,7 @@ pub fn init() {
         let p = libc::mmap(std::ptr::null_mut(), sz, libc::PROT_READ | libc::PROT_WRITE, libc::MAP_SHARED | libc::MAP_ANONYMOUS, -1, 0);
         assert!(p != libc::MAP_FAILED, "mmap of shared log failed");
         SHARED.store(p as *mut Shared, SeqCst);
-        MAIN_PID.store(libc::syscall(libc::SYS_getpid) as i32, SeqCst);
+        MAIN_PID.store(crate::rsys!(libc::SYS_getpid) as i32, SeqCst);
     }
 }
 
@@ -159,7 +163,7 @@ pub fn set_subject(on: bool) {
     if on == was {
         return;
     }
-    let tid = unsafe { libc::syscall(libc::SYS_gettid) as i32 };
+    let tid = unsafe { crate::rsys!(libc::SYS_gettid) as i32 };
     if on {
         for t in SUBJECT_TIDS.iter() {
             if t.compare_exchange(0, tid, SeqCst, SeqCst).is_ok() {
@@ -186,7 +190,7 @@ pub fn subject<T>(f: impl FnOnce() -> T) -> T {
         if let Some(s) = shared() {
             s.child_escapes.fetch_add(1, SeqCst);
         }
-        unsafe { libc::syscall(libc::SYS_exit_group, 102) };
+        unsafe { crate::rsys!(libc::SYS_exit_group, 102) };
     }
     set_subject(prev);
     r
@@ -215,6 +219,7 @@ pub fn reset() {
         s.child_exec_attempts.store(0, SeqCst);
         s.child_panics.store(0, SeqCst);
         s.child_escapes.store(0, SeqCst);
+        s.unmodelled_raw_syscalls.store(0, SeqCst);
         s.bt_n.store(0, SeqCst);
         for f in s.plan_fired.iter() {
             f.store(0, SeqCst);
@@ -245,11 +250,11 @@ pub fn log(kind: u16, a: [i64; 4], ret: i64, err: i32, inj: u8) {
         kind,
         child: child as u8,
         inj,
-        tid: unsafe { libc::syscall(libc::SYS_gettid) as u32 },
+        tid: unsafe { crate::rsys!(libc::SYS_gettid) as u32 },
         a,
         ret,
         err,
-        pid: if child { unsafe { libc::syscall(libc::SYS_getpid) as i32 } } else { MAIN_PID.load(SeqCst) },
+        pid: if child { unsafe { crate::rsys!(libc::SYS_getpid) as i32 } } else { MAIN_PID.load(SeqCst) },
         vt: crate::vclock::now_ns(),
     };
     unsafe {
